@@ -17,6 +17,7 @@ UNIT_MAP = {
     'object_laws': ['object_laws'],
     'names': ['name_resolution'],
     'error_trace': ['error_trace'],
+    'emission': ['decode_walk'],
     'scan:error_site_address': ['error_trace'],
     'card_index': ['error_trace'],
     'card_home': ['error_trace'],
@@ -24,6 +25,8 @@ UNIT_MAP = {
     'modules': ['name_resolution'],
     'resolve': ['name_resolution'],
 }
+# drivers whose target may crash the process: the search leaves the current input in a file
+CRASH_PRONE = {'decode_walk'}
 _built = {}
 
 def build(repo, scratch):
@@ -59,14 +62,27 @@ def search_unit(repo, scratch, unit, seed, iters=30000):
     exe = build(repo, scratch)
     for drv in drivers:
         for s in (seed, seed + 1, seed + 2):
-            p = subprocess.run([exe, drv, 'search', str(s + 1), str(iters)], capture_output=True, text=True, timeout=900)
+            last = os.path.join(scratch, 'replay-last-%s.txt' % drv)
+            if drv in CRASH_PRONE:
+                env = dict(os.environ, CAO_REPLAY_LAST=last)
+            else:
+                env = None
+            p = subprocess.run([exe, drv, 'search', str(s + 1), str(iters)], capture_output=True, text=True, timeout=900, env=env)
             f = _parse_fail(p.stdout)
             if f:
                 f['how_to_replay'] = 'bin/check <property> --replay <this file>  (re-runs: cao-replay %s replay %d %s)' % (drv, f['variant'], f['ops'])
                 return f
             if p.returncode not in (0, 1):
                 # a crash / hang of the real code under the driver is itself a failing input
-                return dict(driver=drv, variant=-1, step=-1, ops='', observed='driver terminated abnormally (rc=%s): %s' % (p.returncode, (p.stderr or '')[-300:]))
+                ops, variant = '', -1
+                try:
+                    u, variant, ops = open(last).read().split(' ', 2)
+                    variant = int(variant)
+                except (OSError, ValueError):
+                    pass
+                return dict(driver=drv, variant=variant, step=-1, ops=ops,
+                            observed='the real code terminated the process abnormally on this input (rc=%s, e.g. -11 = SIGSEGV): %s' % (p.returncode, (p.stderr or '')[-300:]),
+                            how_to_replay='bin/check <property> --replay <this file>  (re-runs: cao-replay %s replay %d %s)' % (drv, variant, ops))
     return None
 
 def explore(repo, scratch, driver, seed, iters):
